@@ -129,11 +129,30 @@ func logicalOf(l *loopInst) (map[string]lc, map[string][]byte, error) {
 	return out, app, nil
 }
 
+// oracleProp is the property being checked (-prop); each trace-level oracle speaks only when its
+// own property (or the whole trace level: LOOP, or a replay) is being checked, so that a finding
+// of one property is not reported under another.
+var oracleProp string
+
+func oracleFor(props ...string) bool {
+	if oracleProp == "" || oracleProp == "LOOP" {
+		return true
+	}
+	for _, p := range props {
+		if p == oracleProp {
+			return true
+		}
+	}
+	return false
+}
+
 func checkLoop(l *loopInst) string {
 	t := trackOf(l.id)
 	if l.echo {
 		l.echo = false
-		return "FAIL C10 upload-without-local-change-or-startup"
+		if oracleFor("C10") {
+			return "FAIL C10 upload-without-local-change-or-startup"
+		}
 	}
 	logical, app, err := logicalOf(l)
 	if err != nil {
@@ -154,14 +173,20 @@ func checkLoop(l *loopInst) string {
 			}
 			wv, err1 := decodeStored(w.val)
 			if !present {
-				return fmt.Sprintf("FAIL C03 native-entry-removed key=%s", hx([]byte(k)))
+				if oracleFor("C03", "C01") {
+					return fmt.Sprintf("FAIL C03 native-entry-removed key=%s", hx([]byte(k)))
+				}
+				continue
 			}
 			cv, err2 := decodeStored(cur)
 			if err1 != nil || err2 != nil {
 				continue
 			}
 			if !verBeats(cv, wv) {
-				return fmt.Sprintf("FAIL C03 native-write-replaced-by-non-winner key=%s", hx([]byte(k)))
+				if oracleFor("C03", "C01") {
+					return fmt.Sprintf("FAIL C03 native-write-replaced-by-non-winner key=%s", hx([]byte(k)))
+				}
+				continue
 			}
 			delete(t.writes, k) // superseded
 			continue
@@ -181,11 +206,13 @@ func checkLoop(l *loopInst) string {
 		if w.race {
 			label = "D9"
 		}
-		return fmt.Sprintf("FAIL %s application-write-destroyed key=%s committed-at=%s", label, hx([]byte(k)), w.point)
+		if oracleFor("C03", "C01") {
+			return fmt.Sprintf("FAIL %s application-write-destroyed key=%s committed-at=%s", label, hx([]byte(k)), w.point)
+		}
 	}
 	// ---- C09: at the idle point every (not superseded) application write made before this
 	// iteration's change check is in the instance's newest snapshot
-	if l.at == "loop.sleep" && !l.exited {
+	if l.at == "loop.sleep" && !l.exited && oracleFor("C09", "C01") {
 		newest, err := decodedNewest()
 		if err == nil {
 			var own map[string]lc
@@ -218,7 +245,7 @@ func checkLoop(l *loopInst) string {
 		}
 	}
 	// ---- C05: the join over the newest snapshots of all instances never decreases
-	if newest, err := decodedNewest(); err == nil {
+	if newest, err := decodedNewest(); err == nil && oracleFor("C05", "C12") {
 		join := map[string]lc{}
 		for _, msg := range newest {
 			vs, err := snapshotVersions(msg, trackedDBI)
@@ -292,6 +319,9 @@ func init() {
 	// the newest snapshot of every other instance, nothing unpublished) all instances hold
 	// identical logical content.
 	implOps["prop.fleet.converged"] = func(a []string) string {
+		if !oracleFor("C01") {
+			return "ok"
+		}
 		newest, err := decodedNewest()
 		if err != nil {
 			return "ok"
